@@ -35,10 +35,12 @@ struct Relay {
 
 impl Wake for Relay {
   fn wake(self: Arc<Self>) {
+    fibre_verif_rt::ctx::probe("async_waker_invoked_by_library");
     self.woken.store(true, Ordering::SeqCst);
     self.inner.wake_by_ref();
   }
   fn wake_by_ref(self: &Arc<Self>) {
+    fibre_verif_rt::ctx::probe("async_waker_invoked_by_library");
     self.woken.store(true, Ordering::SeqCst);
     self.inner.wake_by_ref();
   }
@@ -87,10 +89,14 @@ impl<F: Future> Future for Driver<F> {
     let mut icx = Context::from_waker(&waker);
     match this.fut.as_mut().unwrap().as_mut().poll(&mut icx) {
       Poll::Ready(v) => {
+        if this.pendings > 0 {
+          fibre_verif_rt::ctx::probe("async_op_completed_after_pending");
+        }
         this.fut = None;
         Poll::Ready(Some(v))
       }
       Poll::Pending => {
+        fibre_verif_rt::ctx::probe("async_op_returned_pending");
         this.pendings = this.pendings.saturating_add(1);
         if this.plan.cancel_after > 0 && this.pendings >= this.plan.cancel_after {
           this.cancelling = true;
